@@ -58,8 +58,9 @@ def op_dump(w, ins):
         arg = None
         cont = 'none'
     else:
-        if not cand or not roots_idx:
+        if not cand or (not roots_idx and fmt != 'pickle'):
             return 'skip'
+        # (an empty list of roots is legal for a pickle)
         sl = [cand[i % len(cand)] for i in roots_idx]
         if ins.get('as_dict'):
             keys = [f'r{j}' for j in range(len(sl))]
@@ -429,6 +430,8 @@ def gen_dump(w, r, cfg):
     fmts = ['pickle'] if w.flavor == 'raw' else ['pickle', 'json', 'json']
     fmt = r.choice(fmts)
     roots = None if (fmt == 'pickle' and r.random() < 0.12) else [_ri(r) for _ in range(r.randint(1, 4))]
+    if fmt == 'pickle' and roots is not None and r.random() < 0.04:
+        roots = []
     kinds = ['open', 'write', 'write'] + (['stale', 'shelf'] if fmt == 'json' else [])
     return dict(op='dump', m=0 if r.random() < 0.8 else 1, fmt=fmt, roots=roots,
                 as_dict=r.randrange(2), file=r.randrange(4), filetype=r.randrange(2),
